@@ -64,6 +64,8 @@ class Env:
     @classmethod
     def reload(cls, env=None):
         """Refresh cached environment variable names."""
+        # ensure `environ` is loaded before `var_names` is computed (and cached) from it
+        cls.load_environ()
         env_vars = cls.var_names
 
         if env is None:
